@@ -7,6 +7,7 @@
 From Coq Require Import String ZArith NArith List Bool.
 Import ListNotations.
 Require Import BV.gen.GenSecurity BV.model.NetInfo BV.proofs.NetInfo_proofs.
+Require Import BV.gen.GenNetInfoFn BV.proofs.NetInfoSrc_proofs.
 Open Scope N_scope.
 
 (* the security state sent to the NCP carries exactly the keys supplied, with presence flags that
@@ -98,3 +99,118 @@ Example c14_example :
   /\ option_map children (read_back 13 (written 13 4 ni [0xEE])) = Some [([7], Some 0x3000)]
   /\ option_map hashed_tclk (read_back 6 (written 6 4 ni [0xEE])) = Some (Some [0xEE]).
 Proof. vm_compute. repeat split. Qed.
+
+(* ---- source tie (gen/GenNetInfoFn.v is emitted from the source text on every run; proofs/NetInfoSrc_proofs.v) ---------- *)
+
+(* util.zha_security as written IS the model's zha_security, for every input: [py_zha_security] reads the hashed key out of
+   network_info.stack_specific itself (None = KeyError when it is absent), the model takes it as an argument *)
+Theorem c14_source_security_state : forall ni use_hashed hashed,
+  (use_hashed = true -> hashed_tclk ni = Some hashed) ->
+  py_zha_security ni use_hashed = Some (zha_security ni use_hashed hashed).
+Proof. exact src_security_state. Qed.
+
+Theorem c14_source_security_state_no_hash : forall ni, hashed_tclk ni = None -> py_zha_security ni true = None.
+Proof. exact src_security_state_no_hash. Qed.
+
+(* util.ezsp_key_to_zigpy_key: which bit of the key struct's bitmask guards which field (a field whose bit is clear keeps
+   the default of zigpy's Key); the model's read-back takes key, sequence number and counter from the store directly and
+   has no counterpart, so the statements are about the emitted functions *)
+Theorem c14_source_key_conversion : forall e,
+  let z := py_ezsp_key_to_zigpy_key e in
+  zk_key z = ek_key e /\
+  zk_seq z = (if has_bits (ek_bitmask e) (kbit "KEY_HAS_SEQUENCE_NUMBER") then ek_sequenceNumber e else Some 0) /\
+  zk_tx_counter z = (if has_bits (ek_bitmask e) (kbit "KEY_HAS_OUTGOING_FRAME_COUNTER") then ek_outgoingFrameCounter e else Some 0) /\
+  zk_rx_counter z = (if has_bits (ek_bitmask e) (kbit "KEY_HAS_INCOMING_FRAME_COUNTER") then ek_incomingFrameCounter e else Some 0) /\
+  zk_partner_ieee z = (if has_bits (ek_bitmask e) (kbit "KEY_HAS_PARTNER_EUI64") then ek_partnerEUI64 e else Some unknown_eui).
+Proof. exact src_key_from_ezsp. Qed.
+
+(* util.zigpy_key_to_ezsp_key: every field is copied and exactly the bits of the fields that are present are set *)
+Theorem c14_source_key_conversion_back : forall z,
+  let e := py_zigpy_key_to_ezsp_key z in
+  ek_key e = zk_key z /\ ek_sequenceNumber e = zk_seq z /\ ek_outgoingFrameCounter e = zk_tx_counter z /\
+  ek_incomingFrameCounter e = zk_rx_counter z /\ ek_partnerEUI64 e = zk_partner_ieee z /\
+  ek_bitmask e = N.lor (N.lor (N.lor (if zk_seq z then kbit "KEY_HAS_SEQUENCE_NUMBER" else 0)
+                                     (if zk_tx_counter z then kbit "KEY_HAS_OUTGOING_FRAME_COUNTER" else 0))
+                              (if zk_rx_counter z then kbit "KEY_HAS_INCOMING_FRAME_COUNTER" else 0))
+                       (if zk_partner_ieee z then kbit "KEY_HAS_PARTNER_EUI64" else 0).
+Proof. exact src_key_to_ezsp. Qed.
+
+(* round trips, both ways, when all four optional fields are present *)
+Theorem c14_source_key_roundtrip : forall k tx rx seq p,
+  let z := {| zk_key := k; zk_tx_counter := Some tx; zk_rx_counter := Some rx; zk_seq := Some seq; zk_partner_ieee := Some p |} in
+  py_ezsp_key_to_zigpy_key (py_zigpy_key_to_ezsp_key z) = z.
+Proof. exact src_key_roundtrip_zigpy. Qed.
+
+Theorem c14_source_key_roundtrip_ezsp : forall k tx rx seq p,
+  let e := {| ek_bitmask := N.lor (N.lor (N.lor (kbit "KEY_HAS_SEQUENCE_NUMBER") (kbit "KEY_HAS_OUTGOING_FRAME_COUNTER"))
+                                         (kbit "KEY_HAS_INCOMING_FRAME_COUNTER")) (kbit "KEY_HAS_PARTNER_EUI64");
+              ek_key := k; ek_outgoingFrameCounter := Some tx; ek_incomingFrameCounter := Some rx;
+              ek_sequenceNumber := Some seq; ek_partnerEUI64 := Some p |} in
+  py_zigpy_key_to_ezsp_key (py_ezsp_key_to_zigpy_key e) = e.
+Proof. exact src_key_roundtrip_ezsp. Qed.
+
+(* ControllerApplication.write_network_info as written, with the write accessors of the protocol handler registered for
+   the version: for every version 4..14, every input and every answer of the NCP to the EUI64 questions the coroutine
+   runs to its end and the steps it awaits, read as steps of the model ([steps_of]: commands as stores of the abstract NCP,
+   queries and guards dropped), are [write_steps]: reset_network_info; the node address written and the NCP restarted iff
+   [eui64_written]; then exactly [write_plan] on the network information as the coroutine has updated it
+   ([effective_netinfo]); then the wait for the network.  Hypothesis: the stack-specific hashed key, if present, is not
+   the empty string (c14_source_empty_hash_replaced) *)
+Theorem c14_source_write_order : forall v ni node_ieee ncp_eui64 can_rewrite can_burn flags rh,
+  4 <= v -> v <= 14 -> hashed_tclk ni <> Some [] ->
+  let wrote := eui64_written node_ieee ncp_eui64 can_rewrite can_burn (flags OPT_IN) in
+  let r := py_write_network_info v ni node_ieee ncp_eui64 can_rewrite can_burn flags rh in
+  wn_outcome r = WnDone /\
+  steps_of v (wn_steps r) = write_steps v wrote (effective_netinfo wrote ncp_eui64 ni) rh.
+Proof. exact src_write_order. Qed.
+
+(* ... in particular: wherever a frame counter or the security state is stored, no restart of the NCP (reset_network_info,
+   _reset) follows, the network is formed later, and it has not been formed before *)
+Theorem c14_source_staged_after_restart_before_form :
+  forall v ni node_ieee ncp_eui64 can_rewrite can_burn flags rh pre s post,
+  4 <= v -> v <= 14 -> hashed_tclk ni <> Some [] ->
+  steps_of v (wn_steps (py_write_network_info v ni node_ieee ncp_eui64 can_rewrite can_burn flags rh)) = pre ++ s :: post ->
+  staged_store s = true ->
+  forallb (fun x => negb (restarts_ncp x)) post = true /\ existsb forms_network post = true /\
+  forallb (fun x => negb (forms_network x)) pre = true.
+Proof. exact src_staged_after_restart_before_form. Qed.
+
+(* the same of the model's own step list, and the security state is among its stores (non-vacuity) *)
+Theorem c14_write_steps_order : forall v wrote ni rh pre s post,
+  write_steps v wrote ni rh = pre ++ s :: post -> staged_store s = true ->
+  forallb (fun x => negb (restarts_ncp x)) post = true /\ existsb forms_network post = true /\
+  forallb (fun x => negb (forms_network x)) pre = true.
+Proof. intros v wrote ni rh pre s post. exact (order_ok_split _ pre s post (write_steps_order_ok v wrote ni rh)). Qed.
+
+Theorem c14_write_steps_has_security : forall v wrote ni rh,
+  In (StStore (WSecurity (zha_security ni (4 <? v) (match hashed_tclk ni with Some h => h | None => rh end))))
+     (write_steps v wrote ni rh).
+Proof. exact write_steps_has_security. Qed.
+
+(* what the two restarting steps are: _reset restarts the NCP (startup_reset) and reset_network_info goes through _reset *)
+Theorem c14_source_reset_calls :
+  py_calls_reset = [RCall "self._ezsp" "stop_ezsp"; RCall "self._ezsp" "startup_reset"; RCall "self._ezsp" "write_config"] /\
+  py_calls_reset_network_info =
+    [RCall "self._ezsp" "factory_reset"; RCall "self._ezsp" "reset_custom_eui64"; RCall "self" "_reset";
+     RTryElse [RCall "self" "_ensure_network_running"] "NetworkNotFormed" [RCall "self._ezsp" "leaveNetwork"]].
+Proof. exact src_reset_calls. Qed.
+
+(* where model and source part: an EMPTY hex string under "hashed_tclk" counts as absent for the source (from v5 on the
+   random default is stored and sent), where [write_plan] would send the empty key *)
+Theorem c14_source_empty_hash_replaced : forall v ni ncp rh, (4 < v) -> (hashed_tclk ni = Some []) ->
+  let r := py_write_network_info v ni None ncp false false (fun _ => false) rh in
+  hashed_tclk (wn_netinfo r) = Some rh /\
+  In (ASetInitialSecurityState (zha_security (effective_netinfo false ncp ni) true rh)) (wn_steps r).
+Proof. exact src_empty_hash_replaced. Qed.
+
+Example c14_source_example_v8 :
+  let ni := {| pan_id := 0x1A2B; ext_pan_id := [1;2;3;4;5;6;7;8]; channel := 15; channel_mask := 0x8000; update_id := 3;
+               manager_id := 0; nwk_key := [9;9;9]; nwk_key_seq := 7; nwk_key_fc := 1000; tclk := WELL_KNOWN_TCLK; tclk_fc := 5;
+               tc_address := Some [8;7;6;5;4;3;2;1]; hashed_tclk := None;
+               link_keys := [([1], [11])]; children := [([7], Some 0x3000); ([8], None)] |} in
+  map (fun s => match s with StStore (WNwkFc _) => 1 | StStore (WApsFc _) => 2 | StStore (WSecurity _) => 3
+                           | StStore (WForm _) => 9 | StRestore => 100 | StReboot => 101 | StWriteEui64 => 102
+                           | StNetworkUp => 200 | StStore _ => 5 end)
+      (steps_of 8 (wn_steps (py_write_network_info 8 ni (Some [1;1;1;1;1;1;1;1]) [2;2;2;2;2;2;2;2] true false (fun _ => false) [0xEE])))
+  = [100; 102; 101; 1; 2; 3; 5; 9; 200].
+Proof. vm_compute. reflexivity. Qed.
